@@ -466,6 +466,8 @@ func (s *sim) checkSiblingContexts(box *stateBox, where string) {
 	look("B", b, eb, kx, ky)
 }
 
+func stdHashFn() tree.HashFn { return tree.GetHashFn() }
+
 func serObj(spec *common.Spec, o common.SpecObj) []byte {
 	var buf bytes.Buffer
 	if err := o.Serialize(spec, codec.NewEncodingWriter(&buf)); err != nil {
